@@ -5,11 +5,13 @@
    [text_write ea f W]   the file harness/c03.py writes for a single-table workbook: the header row and the data rows
                          through csv.writer (comma / TAB), or one json.dumps(dict(zip(header, row)), ensure_ascii=ea)
                          per data row
-   [text_parse f img]    what the library's unpacker delivers for a file: list(csv.reader(...)) as rows of str cells,
+   [text_parse f img]    what the library's unpacker delivers for a file: list(csv.reader(...)) over the file as
+                         CSVUnpacker.open opens it (Csv.lib_read: with newline='' from commit aa3b8fc on, which the
+                         model reads from the source on every run) as rows of str cells,
                          the json.loads of every line as dicts of str (an exception shows as no content; the theorems
                          prove there is none for a written file)
-   [text_storable ea f W] the domain: CSV / TAB cells and column names without carriage return and within the csv
-                         field size limit; NDJSON column names and cells, under ensure_ascii, code points without an
+   [text_storable ea f W] the domain: CSV / TAB cells and column names of ANY code points (carriage returns included)
+                         within the csv field size limit; NDJSON column names and cells, under ensure_ascii, code points without an
                          adjacent high/low surrogate pair (any text without ensure_ascii). *)
 From Coq Require Import NArith List Bool Lia.
 Import ListNotations.
@@ -38,7 +40,7 @@ Definition txt_doc (d : Ndjson.doc) : doc := map (fun kv => (fst kv, Txt (snd kv
 Definition text_parse (f : fmt) (img : list N) : content :=
   match f with
   | F_NDJSON => C_json (match Ndjson.ndjson_read img with Ndjson.Done docs => map txt_doc docs | _ => [] end)
-  | _ => C_single (match Csv.csv_read (delimiter_of f) img with Ok rows => map phys_row rows | Err _ => [] end)
+  | _ => C_single (match Csv.lib_read (delimiter_of f) img with Ok rows => map phys_row rows | Err _ => [] end)
   end.
 
 Definition ndjson_table_ok (ea : bool) (T : table) : bool :=
@@ -49,7 +51,7 @@ Definition text_storable (ea : bool) (f : fmt) (W : workbook) : bool :=
   | [(_, T)] =>
       match f with
       | F_NDJSON => ndjson_table_ok ea T
-      | F_CSV | F_TAB => Csv.table_ok (sheet_text T)
+      | F_CSV | F_TAB => Csv.table_ok_raw (sheet_text T)
       | _ => false
       end
   | _ => false
@@ -101,8 +103,8 @@ Proof.
   destruct (storable_single_inv f W Hs Hst) as [T ->].
   destruct Hwf as [_ Hwf]. inversion Hwf as [|? ? [Hnd _] _]; subst. cbn [snd] in Hnd.
   destruct f; try discriminate Hf; cbn [text_write text_parse text_storable phys delimiter_of] in *.
-  - rewrite (CsvP.csv_roundtrip Csv.COMMA _ eq_refl Hok). reflexivity.
-  - rewrite (CsvP.csv_roundtrip Csv.TAB _ eq_refl Hok). reflexivity.
+  - rewrite (CsvP.lib_roundtrip Csv.COMMA _ eq_refl Hok). reflexivity.
+  - rewrite (CsvP.lib_roundtrip Csv.TAB _ eq_refl Hok). reflexivity.
   - rewrite (NdjsonP.ndjson_roundtrip ea _ (docs_ok ea T Hnd Hok)). f_equal.
     unfold docs_of, phys_doc. rewrite map_map. apply map_ext. intros r. apply txt_doc_combine.
 Qed.
@@ -135,10 +137,11 @@ Proof.
   symmetry. apply (facade_ok image ext_write ext_parse H); assumption.
 Qed.
 
-(* non-vacuity: a table with a quote, a delimiter, a line feed, blanks, an empty cell, non-ASCII and non-BMP text *)
+(* non-vacuity: a table with a quote, a delimiter, a line feed, a carriage return, CR LF, blanks, an empty cell,
+   non-ASCII and non-BMP text *)
 Definition ex_text_T : table :=
   mk_table [[65]; [66; 34; 50]]%N
-           [[[97; 44; 98]; [233; 10; 128512]]; [[]; [32; 9; 32]]; [[8232; 133]; [34]]]%N.
+           [[[97; 44; 98]; [233; 10; 128512]]; [[]; [32; 9; 32]]; [[8232; 133]; [34]]; [[97; 13; 98]; [13; 10]]]%N.
 
 Lemma ex_text_T_ok :
   wf_workbook [([], ex_text_T)]
@@ -156,13 +159,13 @@ Require Import SR.Model.Utf8 SR.Proofs.Utf8P.
 (* the file as bytes on disk, decoded as the text layer does, then read *)
 Definition from_bytes {A} (read : list N -> A) (bs : list N) : option A := option_map read (utf8_decode (length bs) bs).
 
-Lemma csv_bytes_roundtrip d T : Csv.delim_ok d = true -> scalar d = true -> Csv.table_ok T = true ->
+Lemma csv_bytes_roundtrip d T : Csv.delim_ok d = true -> scalar d = true -> Csv.table_ok_raw T = true ->
   forallb (forallb (forallb scalar)) T = true ->
-  from_bytes (Csv.csv_read d) (utf8 (Csv.csv_write d T)) = Some (Ok T).
+  from_bytes (Csv.lib_read d) (utf8 (Csv.csv_write d T)) = Some (Ok T).
 Proof.
   intros Hd Hs HT Hsc. unfold from_bytes.
   rewrite utf8_roundtrip by (apply CsvP.all_csv_write; try assumption; reflexivity).
-  cbn [option_map]. rewrite CsvP.csv_roundtrip by assumption. reflexivity.
+  cbn [option_map]. rewrite CsvP.lib_roundtrip by assumption. reflexivity.
 Qed.
 
 Lemma ndjson_bytes_roundtrip ea docs : forallb (Ndjson.doc_ok ea) docs = true ->
